@@ -292,6 +292,20 @@ def check_writer_sequencing(ctx, u):
             ctx.undecided(R, key, f, 'neither a delegation to a sequential writer nor store-then-advance')
 
 
+def _assigned_cursor_delta(f, u, assigns, adv_param):
+    """n when the single cursor assignment of f is `this->offset = <cursor before> + n * advance` (as polynomials,
+    named locals expanded), else None"""
+    from poly import Poly, p_add, p_atom
+    if len(assigns) != 1 or assigns[0].get('kind') != 'BinaryOperator':
+        return None
+    PL = Poly(f, u)
+    d = p_add(PL.poly(assigns[0]['inner'][1]), p_atom('this.offset'), -1)
+    if list(d) == [(adv_param.get('name'),)] and enclosing(assigns[0], ('IfStmt',) + LOOPS) is None:
+        # nothing else may have moved the cursor before (the local holding the old position is its value at entry)
+        return d[(adv_param.get('name'),)]
+    return None
+
+
 def check_advance_discipline(ctx, u):
     """every sequential accessor with an `advance` flag moves the cursor by the encoded width on
     every path where the flag is set - no other condition decides whether the cursor moves."""
@@ -318,8 +332,12 @@ def check_advance_discipline(ctx, u):
                 if fwd:
                     ctx.ok(R, key + '|forwards', f, 'forwards `advance` to %s' % call_name(fwd[0]), nontrivial=False)
                 else:
-                    incs = [x for x in walk(body) if canon(x).startswith('this.offset') and x.get('kind') in ('UnaryOperator', 'BinaryOperator') and x.get('opcode') in ('++', '=')]
-                    if incs:
+                    incs = [x for x in walk(body) if x.get('kind') in ('UnaryOperator', 'BinaryOperator') and x.get('opcode') in ('++', '=') and kids(x) and canon(x['inner'][0]) == 'this.offset']
+                    delta = _assigned_cursor_delta(f, u, incs, adv_p[0])
+                    if delta is not None:
+                        # offset = <old offset> + (advance ? n : 0): the polynomial n * advance
+                        ctx.ok(R, key + '|advance#0', incs[0], 'cursor set to the old position plus %d iff `advance`' % delta)
+                    elif incs:
                         ctx.undecided(R, key + '|advance', f, 'cursor is updated with a form other than `offset += n`')
                     else:
                         ctx.bad(R, key + '|advance', f, '%s takes `advance` but never moves the cursor' % key)
@@ -465,7 +483,14 @@ def check_2448(ctx, u):
             ctx.require(g is not None, 'StringReader::get_u%d%s not found' % (bits, order))
             adv = [x for x in walk(body_of(g)) if x.get('kind') == 'CompoundAssignOperator' and x.get('opcode') == '+=' and canon(x['inner'][0]) == 'this.offset']
             calls = [c for c in walk(body_of(g)) if c.get('kind') == 'CXXMemberCallExpr' and call_name(c) == nm]
-            ok = len(adv) == 1 and int_value(adv[0]['inner'][1]) == nbytes and len(calls) == 1 and canon(call_args(calls[0])[0]) == 'this.offset'
+            from guard import subst_locals as _slg
+            at_cursor = len(calls) == 1 and _slg(canon(call_args(calls[0])[0]), calls[0]) == 'this.offset'
+            ok = len(adv) == 1 and int_value(adv[0]['inner'][1]) == nbytes and at_cursor
+            if not adv:
+                asg_ = [x for x in walk(body_of(g)) if x.get('kind') == 'BinaryOperator' and x.get('opcode') == '=' and canon(x['inner'][0]) == 'this.offset']
+                ap_ = [p_ for p_ in params_of(g) if p_.get('name') == 'advance']
+                if ap_ and _assigned_cursor_delta(g, u, asg_, ap_[0]) == nbytes and at_cursor:
+                    ok = True
             ctx.check(ok, R, 'get_u%d%s|advance' % (bits, order), g, 'reads %s at the cursor and advances by %d' % (nm, nbytes), 'sequential form does not read %s(this->offset) and advance by %d: advance %s' % (nm, nbytes, [canon(a['inner'][1]) for a in adv]))
             rets = [x for x in walk(body_of(g)) if x.get('kind') == 'ReturnStmt']
             okr = len(rets) == 1 and calls and any(c is calls[0] for c in walk(g)) and _returns_value_of(rets[0], calls[0], u)
